@@ -1,4 +1,5 @@
 import SSV.Proofs.StatsSeq
+import SSV.Proofs.StatsLock
 /-
 C14 — Traffic statistics neither lose nor invent traffic and charge the right user.
 
@@ -118,6 +119,31 @@ theorem attribution (ops : List Op) (cfg : Config) (hr : Reach (initCfg ops) cfg
   · simp [target, anonymousUsername]
   · intro u hu; simp [target, anonymousUsername, hu]
 
+/-- **Lazy creation of user collectors (lock level).** Any number of threads call
+`serverCollector.userCollector(u)` concurrently for the same `u`, executing the regenerated program
+`Gen.userCollector` statement by statement under reader/writer-lock semantics (SSV.Model.StatsLock), the map
+holding a collector for `u` already or not. In every reachable configuration: every caller that has returned
+holds the collector that is in the map (so all callers add to the SAME counters and every later snapshot
+iterates over exactly that collector); a collector that is in the map is never replaced. This is what
+justifies the atomic "create if absent" step of the counter-level model (`CStage.create`), and what fails if
+the re-check under the write lock is removed. -/
+theorem userCollector_creates_once (entry : Option Nat) (n : Nat) (cfg : StatsLock.LConfig)
+    (hr : StatsLock.LReach userCollector (StatsLock.linit entry n) cfg) :
+    (∀ th ∈ cfg.threads, StatsLock.returned userCollector th → th.uc = cfg.sh.entry ∧ cfg.sh.entry.isSome) ∧
+    (∀ r, entry = some r → cfg.sh.entry = some r) ∧
+    (∀ cfg', StatsLock.LStepRel userCollector cfg cfg' → ∀ r, cfg.sh.entry = some r → cfg'.sh.entry = some r) := by
+  have hi := StatsLock.reach_inv hr (StatsLock.linit_inv entry n)
+  refine ⟨?_, ?_, ?_⟩
+  · intro th hth hret
+    have ht := hi.t th hth
+    exact ht.2.2.2.2.2.1 (StatsLock.returned_pc ht hret)
+  · intro r he
+    exact StatsLock.reach_entry hr (StatsLock.linit_inv entry n) r (by simp [StatsLock.linit, he])
+  · intro cfg' hs r he
+    exact StatsLock.entry_stable hs hi r he
+
+example : StatsLock.LReach userCollector (StatsLock.linit none 3) (StatsLock.linit none 3) := StatsLock.LReach.refl _
+
 /-- **A Snapshot at quiescence reads the counters.** Started on shared state `sh` with no other thread
 running, a Snapshot — whatever order `range sc.ucs` yields — leaves every counter unchanged and, once finished,
 has obtained for the anonymous collector and for EVERY existing user collector exactly the current counter
@@ -144,9 +170,12 @@ example : ∃ cfg s, Reach ⟨Shared.init, [.snap (mkSnap false)]⟩ cfg ∧ cfg
 
 /-- The sequential execution used by the driver (and compared with the real collector by corr_c14) is a run of
 the interleaving semantics the theorems above quantify over. -/
-theorem driver_run_is_interleaving (n : Nat) (sh : Shared) (reset : Bool) :
-    Reach ⟨sh, [.snap (mkSnap reset)]⟩ ⟨(runSnap n sh (mkSnap reset)).1, [.snap (runSnap n sh (mkSnap reset)).2]⟩ :=
-  runSnap_reach n sh (mkSnap reset)
+theorem driver_run_is_interleaving (n : Nat) (sh : Shared) :
+    (∀ reset : Bool, Reach ⟨sh, [.snap (mkSnap reset)]⟩
+        ⟨(runSnap n sh (mkSnap reset)).1, [.snap (runSnap n sh (mkSnap reset)).2]⟩) ∧
+    (∀ (c : Call) (u : String) (x0 x1 : Nat), Reach ⟨sh, [.collect (mkCollect c u x0 x1)]⟩
+        ⟨(runCollect n sh (mkCollect c u x0 x1)).1, [.collect (runCollect n sh (mkCollect c u x0 x1)).2]⟩) :=
+  ⟨fun reset => runSnap_reach n sh (mkSnap reset), fun c u x0 x1 => runCollect_reach n sh (mkCollect c u x0 x1)⟩
 
 /-! ### API projections -/
 
@@ -214,6 +243,7 @@ end SSV.C14
 #print axioms SSV.C14.conservation_quiescent
 #print axioms SSV.C14.total_is_sum
 #print axioms SSV.C14.attribution
+#print axioms SSV.C14.userCollector_creates_once
 #print axioms SSV.C14.final_snapshot_reads_counters
 #print axioms SSV.C14.driver_run_is_interleaving
 #print axioms SSV.C14.api_exact
